@@ -97,10 +97,10 @@ def run_workload(wl: dict, cache_dir: Path | None, logpath: str):  # noqa: ANN20
     if kind in ("scan_time_course", "scan_steady_state", "mc_time_course", "scan_protocol"):
         vals = [o["value"] for o in wl["ops"]]
         idx = [_key(o["key"]) for o in wl["ops"]]
-        if idx and isinstance(idx[0], tuple):
+        if idx and all(isinstance(k, tuple) for k in idx) and len({len(k) for k in idx}) == 1:
             index = pd.MultiIndex.from_tuples(idx)
         else:
-            index = pd.Index(idx)
+            index = pd.Index(idx, dtype=object, tupleize_cols=False)  # mixed labels: plain object index
         to_scan = pd.DataFrame({"k1": vals}, index=index)
         if kind == "mc_time_course":
             from mxlpy import mc
@@ -207,6 +207,7 @@ def gen_workload(rng: SimRng, tier: str) -> dict:  # noqa: ARG001
     r.shuffle(near_pool)
     ops = []
     used = set()
+    used_eq: set = set()
     for i in range(n):
         if keystyle == "int":
             k = r.choice([i, i * 3 + 1, -i])
@@ -221,9 +222,15 @@ def gen_workload(rng: SimRng, tier: str) -> dict:  # noqa: ARG001
             k = (i // 2) if i % 2 == 0 else str(i // 2)
         else:
             k = r.choice([i, f"s{i}", 2.5 + i])
-        if repr(k) in used:
+        # keys must be pairwise distinct AS PYTHON OBJECTS ((1, 2.0) == (1.0, 2.0)!)
+        if _key(k) in used_eq or repr(k) in used:
             k = f"u{i}"
         used.add(repr(k))
+        used_eq.add(_key(k))
+        if kind != "parallelise" and isinstance(k, list) and keystyle in ("near", "mixed", "collide") and any(not isinstance(o["key"], list) for o in ops):
+            k = f"t{i}"  # scan row labels: pandas cannot concatenate frames keyed by a mix of tuples and scalars
+        if kind != "parallelise" and not isinstance(k, list) and any(isinstance(o["key"], list) for o in ops):
+            k = [9, i]
         if kind == "parallelise":
             size = r.choice([0, 1, 10, 100, 1000, 8191, 8192, 8193, 20000, 70000]) if r.random() < 0.5 else r.randint(0, 3000)
             ops.append({"key": k, "size": size})
